@@ -79,7 +79,9 @@ def run(ctx):
             e = '(default (? false "%s%s" null) %s)' % ('x' * off, pad, e)
         cfg = lib.new_cfg(select=[e + '=x'])
         if rnd.random() < 0.2: cfg = lib.new_cfg(filter=e)
-        cases.append(mkcase('E%d' % i, cfg, rnd.choice(INPUTS).encode('utf8')))
+        inp = rnd.choice(INPUTS)
+        if '(range .)' in e and inp in ('18446744073709551615', '1e300'): inp = '7'        # collection sizes <= 10^4 (resource exhaustion is out of scope)
+        cases.append(mkcase('E%d' % i, cfg, inp.encode('utf8')))
     def proj(c, r, side):
         if c['id'].startswith('E'): return ('done' if r['result'] not in ('panic', 'hang', 'abort', 'stackoverflow') else r['result'],)
         # error messages quote the offending byte, which may itself be a line break: compare the rows only
